@@ -119,8 +119,8 @@ def run(res, tier, seed, replay=None):
         configs = [("default", None), ("c64", (3, 3, 3)), ("c32", (2, 2, 2)), ("c32", (4, 3, 4))]
     else:
         configs = [("default", None), ("default", (2, 1, 2)), ("default", (3, 2, 3)), ("default", (3, 3, 4)), ("default", (4, 4, 4)),
-                   ("c64", (2, 2, 2)), ("c64", (3, 3, 3)), ("c64", (4, 1, 4)), ("c64", (2, 3, 4)), ("c64", (4, 4, 4)),
-                   ("c32", (2, 2, 2)), ("c32", (3, 3, 3)), ("c32", (4, 3, 4)), ("c32", (2, 4, 4)), ("c32", (4, 2, 4)), ("c32", (3, 1, 3))]
+                   ("c64", (2, 2, 2)), ("c64", (3, 3, 3)), ("c64", (4, 1, 4)), ("c64", (3, 2, 4)), ("c64", (4, 4, 4)),
+                   ("c32", (2, 2, 2)), ("c32", (3, 3, 3)), ("c32", (4, 3, 4)), ("c32", (4, 4, 4)), ("c32", (4, 2, 4)), ("c32", (3, 1, 3))]
     per = []
     dist = collections.Counter()
     samples = []
